@@ -693,3 +693,91 @@ def is_self_field(o, field, self_roots=(("arg", 1),)):
     if base[0] == "field" and strip_refs(base[1])[0] == "arg":
         return True
     return False
+
+
+# ---------------------------------------------------------------------------- inlining of private helpers
+
+def _rewrite(node, loff, boff, poff, callee_def):
+    """deep copy of a MIR JSON fragment with locals shifted by loff (block numbers are shifted by the caller)"""
+    if isinstance(node, dict):
+        if "l" in node and "p" in node and isinstance(node.get("p"), list):
+            out = {"l": node["l"] + loff, "p": [_rewrite(x, loff, boff, poff, callee_def) for x in node["p"]]}
+            return out
+        out = {}
+        for k, v in node.items():
+            if k == "index" and isinstance(v, int):
+                out[k] = v + loff
+            elif k == "promoted" and isinstance(v, int) and node.get("uneval") == callee_def:
+                out[k] = v + poff
+            else:
+                out[k] = _rewrite(v, loff, boff, poff, callee_def)
+        return out
+    if isinstance(node, list):
+        return [_rewrite(x, loff, boff, poff, callee_def) for x in node]
+    return node
+
+
+_BLOCK_KEYS = ("target", "unwind", "otherwise", "resume", "drop", "imaginary")
+
+
+def _shift_blocks(term, boff):
+    if term is None:
+        return None
+    t = dict(term)
+    for k in _BLOCK_KEYS:
+        if isinstance(t.get(k), int):
+            t[k] = t[k] + boff
+    if "targets" in t:
+        t["targets"] = [[v, b + boff] for v, b in t["targets"]]
+    return t
+
+
+def inline_calls(body, want, depth=2):
+    """new Body in which every call whose resolved callee satisfies want(def path) and has a (non-coroutine) body in the
+    fact base is replaced by the callee's blocks.  Used so that extracting part of a function into a private helper does
+    not hide the helper's statements from path rules."""
+    mir = body.mir
+    raw = body.raw
+    changed = False
+    for _ in range(depth):
+        blocks = [dict(b, stmts=list(b["stmts"])) for b in raw["blocks"]]
+        locals_ = list(raw["locals"])
+        promoted = list(raw.get("promoted") or [])
+        did = False
+        for bi in range(len(blocks)):
+            t = blocks[bi]["term"]
+            if not t or t["k"] != "call":
+                continue
+            d, rd, ga, fn = callee(t)
+            name = rd or d
+            if not name or not want(name) or name == body.name.split("#")[0]:
+                continue
+            cb = mir.bodies.get(name)
+            if cb is None or cb.get("coroutine") or t.get("target") is None:
+                continue
+            loff, boff, poff = len(locals_), len(blocks), len(promoted)
+            locals_.extend(cb["locals"])
+            promoted.extend(cb.get("promoted") or [])
+            new_blocks = []
+            for cblk in cb["blocks"]:
+                nb = {"stmts": _rewrite(cblk["stmts"], loff, boff, poff, name), "cleanup": cblk.get("cleanup", False),
+                      "term": _shift_blocks(_rewrite(cblk["term"], loff, boff, poff, name), boff)}
+                if nb["term"] and nb["term"]["k"] == "return":
+                    nb["stmts"] = nb["stmts"] + [{"k": "assign", "place": t["dest"], "rv": {"k": "use", "x": {"move": {"l": loff, "p": []}}},
+                                                  "line": t.get("line"), "exp": False, "inlined_return": name}]
+                    nb["term"] = {"k": "goto", "target": t["target"], "line": t.get("line")}
+                new_blocks.append(nb)
+            pre = blocks[bi]
+            for i, a in enumerate(t["args"]):
+                pre["stmts"].append({"k": "assign", "place": {"l": loff + 1 + i, "p": []}, "rv": {"k": "use", "x": a}, "line": t.get("line"), "exp": False,
+                                     "inlined_arg": name})
+            pre["term"] = {"k": "goto", "target": boff, "line": t.get("line"), "inlined_call": name}
+            blocks.extend(new_blocks)
+            did = True
+        if not did:
+            break
+        changed = True
+        raw = dict(raw, blocks=blocks, locals=locals_, promoted=promoted)
+    if not changed:
+        return body
+    return Body(body.name + "#inlined", raw, mir)
